@@ -17,7 +17,7 @@ FilesOf(e) == [k \in 1 .. Len(e.files) |-> FileOf(e.files[k])]
 (* one module: outcome allowed, accepted state faithful *)
 ModViol(cfg, e) ==
   IF e.out \notin Allowed(cfg)
-  THEN (IF e.out = "accepted" THEN "erroneous configuration accepted (ignored or half applied)"
+  THEN (IF e.out = "accepted" THEN "erroneous configuration accepted: " \o WhyRejected(cfg)
         ELSE "healthy configuration rejected")
   ELSE IF e.out = "accepted" THEN StateViol(cfg, e.st) ELSE ""
 
